@@ -75,7 +75,7 @@ func (p *point) cost(alt int) int {
 		return 0
 	}
 	switch p.envKinds[alt] {
-	case "tick", "ctx", "adv":
+	case "tick", "adv":
 		return 1
 	}
 	return 0
